@@ -111,7 +111,8 @@ async def through_bridge(datagrams):
     Consecutive byte-identical datagrams are ordinary broadcasts of an idle device: each must produce its own device."""
     s = socket.socket(socket.AF_INET, socket.SOCK_DGRAM); s.bind(("127.0.0.1", 0)); port = s.getsockname()[1]; s.close()
     got = []
-    bridge = SwitcherBridge(lambda d: got.append(show(d)), [port])
+    def cb(d): got.append(show(d)); world.scribble(d)
+    bridge = SwitcherBridge(cb, [port])
     tx = socket.socket(socket.AF_INET, socket.SOCK_DGRAM)
     await bridge.start()
     try:
